@@ -16,7 +16,12 @@ TRUSTED = [
     "used is accepted); it is decided on the presented corpus only (class C), ground truth as before (deterministic Miller-Rabin below 2^80, "
     "supplied factor for larger composites, well-known primes - NIST/SEC field primes and Mersenne primes - marked P)",
     "bn_smb_jac, additionally PROVED: the cofactor matrix of the approximation loop never wraps (entries within +-2^(w/2-2)) and has "
-    "determinant +-2^(w/2-2) (smb_jac_inner_matrix)",
+    "determinant +-2^(w/2-2) (smb_jac_inner_matrix); the approximation words carry the exact low half digit (smb_jac_approx_low); for one outer "
+    "iteration on a true pair with odd t1 both combinations ai*t0+bi*t1, ci*t0+di*t1 are EXACTLY divisible by 2^s and the quotients agree with the "
+    "final approximation words modulo 4, the next t1 is odd (smb_jac_combination_exact, general step form smb_jac_inner_true: agreement modulo "
+    "2^(w/2-j) after j steps, i.e. at least 3 exact low bits whenever a t update is made); the sign repair identity (smb_jac_sign_repair). "
+    "STILL OPEN for multi-digit b: that the true pair is never negative in BOTH components at a swap (the reciprocity update with signed residues "
+    "is right exactly then), the assembly of the per-iteration Jacobi invariant, and termination",
     "class A (Model/NtSmbPrime2.lean + the 512-entry table Model/NtSmbPrimeTab.lean transcribed from the C text; executed on every "
     "`nt_prime basic` / `nt_prime prime` line): bn_is_prime_basic (a = 1 rejected, trial division by the whole table of the build: 512 entries "
     "for w = 64, 48 for w = 8, `t == 0 && a != p`; negative and zero inputs as coded) and bn_is_prime (basic, then rabin). PROVED: every prime "
